@@ -9,6 +9,7 @@ projection of property Cxx). Core Lean only, so that it links as a `lean_exe`.
 import Driver.Util
 import Driver.Common
 import Driver.BuildOps
+import Driver.UnitOps
 import FastQr.Model.Version
 import FastQr.Model.Classify
 import FastQr.Spec.Capacity
@@ -62,6 +63,14 @@ def handle (prop : String) (line : String) : String :=
       | "buildv" => opBuildV args res
       | "classify" => opClassify args res
       | "build" => opBuild prop args res
+      | "buildx" =>
+        -- malformed stream (outside C10's quantifier): only the model's outcome class is compared
+        { (opBuild "C10" args res) with spec := none }
+      | "division" => opDivision args res
+      | "genpoly" => opGenpoly args res
+      | "masku" => opMasku args res
+      | "pair" => opPair args res
+      | "select" => opSelect args res
       | _ => { spec := some s!"unknown-op:{op}" }
     v.render
 
